@@ -29,6 +29,47 @@ ASSIGN_CLASSES = {"Assign": "=", "AssignAdd": "+=", "AssignSub": "-=", "AssignMu
 GEN_PREFIX = "ffcx.codegeneration"
 
 
+def _root_kind_through_callers(m, f, sl, expr, symtab) -> str:
+    """As _root_kind; when the lvalue's root is a parameter of `f`, the argument bound to it at every call site of `f` in its module
+    is classified in the caller (one level: a helper that receives the tensor / an input symbol from its caller)."""
+    kind = _root_kind(sl, expr, symtab)
+    if kind != "other":
+        return kind
+    roots = {n.id for e in sl.expand(expr, depth=4) for n in ast.walk(e) if isinstance(n, ast.Name)}
+    params = [a.arg for a in f.node.args.args]
+    hit = [p_ for p_ in params if p_ in roots and p_ != "self"]
+    if not hit:
+        return kind
+    short = f.node.name
+    kinds = set()
+    for g in m.funcs.values():
+        if g is f:
+            continue
+        gsl = None
+        for c in calls_in(g.node):
+            nm = call_name(c) or ""
+            if nm.split(".")[-1] != short:
+                continue
+            skip = 1 if (params and params[0] == "self" and isinstance(c.func, ast.Attribute)) else 0
+            bound = {}
+            for i, a in enumerate(c.args):
+                if i + skip < len(params):
+                    bound[params[i + skip]] = a
+            for kw_ in c.keywords:
+                if kw_.arg:
+                    bound[kw_.arg] = kw_.value
+            for p_ in hit:
+                if p_ in bound:
+                    gsl = gsl or Slicer(g.node)
+                    kinds.add(_root_kind(gsl, bound[p_], symtab))
+    if "A" in kinds:
+        return "A"
+    for k in kinds:
+        if k != "other":
+            return k
+    return "other"
+
+
 def _symbol_table(repo):
     """attribute name of FFCXBackendSymbols -> C identifier, read from __init__."""
     m = repo.mod(SYMBOLS)
@@ -113,7 +154,7 @@ def accumulate_only(repo, res):
                     res.functions.add(f.key)
                 n_sites += 1
                 tgt = c.args[0]
-                kind = _root_kind(sl, tgt, symtab)
+                kind = _root_kind_through_callers(m, f, sl, tgt, symtab)
                 if len(possible) > 1 or nm not in ASSIGN_CLASSES:
                     worst = sorted(possible - {"AssignAdd"})
                     nm = worst[0] if worst else "AssignAdd"
@@ -967,80 +1008,7 @@ def restriction_flow(repo, res):
                              "translated: for a '-' restricted quantity (n('-') on an interior facet) the '+' cell's local entity / coordinates would be used", m.line(c))
 
 
-@rule(
-    "GEOM-ENTITY",
-    ["C02", "C04"],
-    "reference-geometry tables that hold one block per facet / ridge (built by iterating topology[-2], or from basix "
-    "facet_jacobians / facet_outward_normals / facet_orientations / edge_jacobians) must be indexed with the current local "
-    "entity by every accessor that reads them; a flat per-facet stacking (`+=` of per-facet rows) needs the entity index scaled "
-    "by the rows per facet. Tables without an entity axis must not be indexed by an entity",
-    min_instances=6,
-)
-def geom_entity(repo, res):
-    gm = repo.mod("ffcx.codegeneration.geometry")
-    am = repo.mod("ffcx.codegeneration.access")
-    per_facet_calls = ("facet_jacobians", "facet_outward_normals", "facet_orientations")
-    per_ridge_calls = ("edge_jacobians",)
-    layout = {}
-    for name, f in gm.funcs.items():
-        if name == "write_table" or "." in name:
-            continue
-        src = ast.unparse(f.node)
-        kind, flat = None, False
-        if any(c in src for c in per_facet_calls):
-            kind = "facet"
-        elif any(c in src for c in per_ridge_calls):
-            kind = "ridge"
-        for n in ast.walk(f.node):
-            if isinstance(n, ast.For) and re.search(r"topology\[-2\]", ast.unparse(n.iter)):
-                kind = "facet"
-                # flat stacking: `rows += [one row per edge ...]`; nested stacking: `rows += [[...]]`
-                for a in ast.walk(n):
-                    if isinstance(a, ast.AugAssign) and isinstance(a.op, ast.Add) and isinstance(a.value, (ast.List, ast.ListComp)):
-                        v = a.value
-                        nested = isinstance(v, ast.List) and len(v.elts) == 1 and isinstance(v.elts[0], (ast.List, ast.ListComp))
-                        flat = flat or not nested
-        if re.search(r"volumes\[0\]", src):
-            kind = None  # a single value, asserted equal for all facets
-        layout[name] = (kind, flat)
-        res.functions.add(f.key)
-    if sum(1 for k, _f in layout.values() if k == "facet") < 4:
-        raise AnalysisError(f"geometry.py: fewer than four per-facet tables recognised ({layout})")
-    acc = {}
-    for q, f in am.funcs.items():
-        if not q.startswith("FFCXBackendAccess."):
-            continue
-        for n in ast.walk(f.node):
-            if isinstance(n, ast.JoinedStr):
-                t = "".join(v.value if isinstance(v, ast.Constant) else "{}" for v in n.values)
-                mm = re.fullmatch(r"\{\}_(\w+)", t)
-                if mm and mm.group(1) in layout:
-                    acc.setdefault(mm.group(1), []).append(f)
-    for tname, (kind, flat) in sorted(layout.items()):
-        for f in acc.get(tname, []):
-            key = f"{f.key}:{tname}:entity-index"
-            res.ob(key)
-            res.functions.add(f.key)
-            src = ast.unparse(f.node)
-            ents = re.findall(r"\.entity\('(\w+)', (\w+(?:\.\w+)*)\)", src)
-            uses = {e for e, _r in ents}
-            if kind is None:
-                if uses:
-                    res.fail(key, f"{f.qualname}: table {tname} has no entity axis but is indexed by the local {sorted(uses)}", am.line(f.node))
-                continue
-            if kind not in uses:
-                res.fail(key, f"{f.qualname}: table {tname} stacks one block per {kind} but the accessor does not select the current {kind}: on every {kind} but the "
-                         f"first the values of {kind} 0 are used (ReferenceFacetEdgeVectors on tetrahedron facets 1-3)", am.line(f.node))
-                continue
-            if flat:
-                # the entity index must be scaled by the rows per entity inside the first subscript
-                var = None
-                for n in ast.walk(f.node):
-                    if isinstance(n, ast.Assign) and isinstance(n.targets[0], ast.Name) and f".entity('{kind}'" in ast.unparse(n.value):
-                        var = n.targets[0].id
-                ok = var is not None and re.search(rf"\[{var} \* \w+ \+ [^\]]+\]|\[\w+ \* {var} \+ [^\]]+\]", src) is not None
-                if not ok:
-                    res.fail(key, f"{f.qualname}: table {tname} is a flat stack of per-{kind} rows; the row index must be {kind} * rows_per_{kind} + row", am.line(f.node))
+# GEOM-ENTITY (a regex reading of access.py / geometry.py) is retired: geomaccess.GEOM-ACCESS interprets the accessors and the table writers together.
 
 
 @rule(
